@@ -252,11 +252,13 @@ Ext2Family(MaxN, inputs) ==
 \*   3 (z):   z * z * y
 \*   4 (a, b): a * a * b + [nested ckpt(5)(a)]      5 (c): c * c
 Ckpt(b, a) == [op |-> "ckpt", b |-> b, a |-> a]
+\* inner = "const": the second argument of the checkpointed function is the constant 3 (the replay passes it by keyword)
 CkptProgram(m, inner, nestedck, order, x) ==
   LET body4 == IF nestedck THEN <<Mul(R(0, 1), R(0, 1)), Mul(R(0, 3), R(0, 2)), Ckpt(5, <<R(0, 1)>>), Add(R(0, 4), R(0, 5)), Ret(R(0, 6))>>
                            ELSE <<Mul(R(0, 1), R(0, 1)), Mul(R(0, 3), R(0, 2)), Ret(R(0, 4))>>
-      body2 == IF inner THEN <<Diff(m[2], 3, R(0, 1), K(1)), Ckpt(4, <<R(0, 1), R(0, 2)>>), Mul(R(0, 3), R(0, 1)), Ret(R(0, 4))>>
-                        ELSE <<Add(R(0, 1), K(1)), Ckpt(4, <<R(0, 1), R(0, 2)>>), Mul(R(0, 3), R(0, 1)), Ret(R(0, 4))>>
+      body2 == IF inner = "diff" THEN <<Diff(m[2], 3, R(0, 1), K(1)), Ckpt(4, <<R(0, 1), R(0, 2)>>), Mul(R(0, 3), R(0, 1)), Ret(R(0, 4))>>
+               ELSE IF inner = "const" THEN <<Add(R(0, 1), K(1)), Ckpt(4, <<R(0, 1), K(3)>>), Mul(R(0, 3), R(0, 1)), Ret(R(0, 4))>>
+               ELSE <<Add(R(0, 1), K(1)), Ckpt(4, <<R(0, 1), R(0, 2)>>), Mul(R(0, 3), R(0, 1)), Ret(R(0, 4))>>
       \* order 2/3: the whole thing differentiated again (reverse mode) by wrapping levels
       core == << body2, CanaryInner, body4, <<Mul(R(0, 1), R(0, 1)), Ret(R(0, 2))>> >>
   IN IF order = 1 THEN Single(<< <<Diff(m[1], 2, R(0, 1), K(1)), Ret(R(0, 2))>> >> \o core, x, FALSE)
@@ -265,5 +267,5 @@ CkptProgram(m, inner, nestedck, order, x) ==
                     <<Diff("vjp", 3, R(0, 1), K(1)), Ret(R(0, 2))>> >> \o ShiftBodies(core, 1), x, FALSE)
 \* checkpoint defines a VJP only (forward mode through it raises NotImplementedError, which the property does not exclude):
 \* every level that encloses the checkpoint call is reverse mode; the differentiation nested inside is of either mode
-CkptFamily(inputs) == {CkptProgram(<<"vjp", m2>>, i, n, o, x) : m2 \in Modes, i \in BOOLEAN, n \in BOOLEAN, o \in {1, 2}, x \in inputs}
+CkptFamily(inputs) == {CkptProgram(<<"vjp", m2>>, i, n, o, x) : m2 \in Modes, i \in {"diff", "var", "const"}, n \in BOOLEAN, o \in {1, 2}, x \in inputs}
 =============================================================================
